@@ -362,6 +362,10 @@ enum Obstacle {
     NotExportable,
     /// the target was written earlier in this history (by another type of the same file) and is now a directory
     ExistingTargetIsDir,
+    /// the target was written earlier in this history by another type of the same file, and something else has emptied it
+    /// since (another process rewriting the same bindings): the call may succeed by starting the file again or return an
+    /// error - it must not panic, and must not leave the registry poisoned
+    ExistingTargetEmptied,
 }
 
 const OBSTACLES: &[Obstacle] = &[
@@ -372,6 +376,8 @@ const OBSTACLES: &[Obstacle] = &[
     Obstacle::NotExportable,
     Obstacle::ExistingTargetIsDir,
     Obstacle::ExistingTargetIsDir,
+    Obstacle::ExistingTargetEmptied,
+    Obstacle::ExistingTargetEmptied,
 ];
 
 enum Cleanup {
@@ -443,6 +449,7 @@ pub fn c17(args: &Args, reg: &[TypeEntry], log: &mut Log) {
             let mut cleanup: Vec<Cleanup> = vec![];
             let mut faulted_op = op.clone();
             let mut retry = true;
+            let mut ok_allowed = false;
             let mut target_set: BTreeSet<String> = w
                 .decls_of(op)
                 .iter()
@@ -478,6 +485,23 @@ pub fn c17(args: &Args, reg: &[TypeEntry], log: &mut Log) {
                     std::fs::create_dir(&full).unwrap();
                     cleanup.push(Cleanup::Restore(full.clone(), bytes));
                     cleanup.push(Cleanup::RemoveDir(full));
+                }
+                Obstacle::ExistingTargetEmptied => {
+                    let Some(rel) = root_rel.clone() else { break };
+                    let full = w.root.join(&rel);
+                    let ident = (reg[op.ty].ident)();
+                    let snap = verif::registry_snapshot();
+                    // the call has to read the file: it is recorded, but not for this type
+                    if !full.is_file() || snap.get(&full).map_or(true, |names| names.contains(&ident)) {
+                        skipped += 1;
+                        break;
+                    }
+                    let bytes = std::fs::read(&full).unwrap();
+                    // empty, or cut off inside the first line
+                    let cut = [0usize, 0, 17, bytes.len().min(60)][rng.below(4)];
+                    std::fs::write(&full, &bytes[..cut.min(bytes.len())]).unwrap();
+                    cleanup.push(Cleanup::Restore(full.clone(), bytes));
+                    ok_allowed = true;
                 }
                 Obstacle::ParentIsFile => {
                     let Some(rel) = root_rel.clone() else { break };
@@ -549,6 +573,28 @@ pub fn c17(args: &Args, reg: &[TypeEntry], log: &mut Log) {
             match &r {
                 Outcome::Err(_) => {}
                 Outcome::Panic(p) => problem = Some(("panic-instead-of-error".into(), format!("{} with {obstacle:?}: {p}", faulted_op.describe(reg)))),
+                Outcome::Ok if ok_allowed => {
+                    // carried out after all: the file was started again and holds the exported type; what the emptied
+                    // file held before is not this call's to bring back, so the history ends here
+                    let ident = (reg[faulted_op.ty].ident)();
+                    let text = root_rel.as_ref().and_then(|rel| std::fs::read_to_string(w.root.join(rel)).ok()).unwrap_or_default();
+                    let declared = tsmodel::parse::parse_module(&text).map(|m| m.decls().any(|d| d.name == ident));
+                    if !text.starts_with(verif::NOTE) || declared != Ok(true) {
+                        problem = Some(("ok-but-file-unusable".into(), format!("{} with {obstacle:?} returned Ok, the file reads: {}", faulted_op.describe(reg), text.chars().take(300).collect::<String>())));
+                    }
+                    if verif::registry_is_poisoned() && problem.is_none() {
+                        problem = Some(("registry-poisoned".into(), format!("after {}", faulted_op.describe(reg))));
+                    }
+                    histories += 1;
+                    distinct.insert(format!("{}|{obstacle:?}@{k}|ok|{}", cfg.name, reg[ops[k].ty].id));
+                    if let Some((kind, what)) = problem.take() {
+                        fails += 1;
+                        log.emit(json!({"ev": "fail", "monitor": "C17", "kind": kind, "what": what, "config": cfg.name, "obstacle": format!("{obstacle:?}"),
+                            "position": k, "shape": [], "history": trace}));
+                    }
+                    did_inject = false;
+                    break;
+                }
                 Outcome::Ok => problem = Some(("ok-despite-obstacle".into(), format!("{} with {obstacle:?} returned Ok", faulted_op.describe(reg)))),
             }
             if verif::registry_is_poisoned() && problem.is_none() {
